@@ -33,7 +33,7 @@ fn accumulate(d: &[u8], radix: u128) -> u128 {
     while i < d.len() { v = v.wrapping_mul(radix).wrapping_add(digit_val(d[i])); i += 1; }
     v
 }
-/// (negative, magnitude) of a text in the INTEGER lexical form (precondition: ref_accepts_INT(t), len <= 30)
+/// (negative, magnitude) of a text in the INTEGER lexical form (precondition: ref_accepts_INT(t), value < 2^128)
 fn int_value(t: &[u8]) -> (bool, u128) {
     if t.len() == 1 && t[0] == b'0' { return (false, 0); }
     if t[0] == b'0' {
@@ -50,7 +50,7 @@ fn int_value(t: &[u8]) -> (bool, u128) {
 macro_rules! int_check {
     ($check:ident, $t:ty, signed: $signed:expr) => {
         pub fn $check(input: &[u8]) {
-            if !all_ascii(input) || input.len() > 30 || !ref_accepts_INT(input) { return; }
+            if !all_ascii(input) || input.len() > 100 || !ref_accepts_INT(input) { return; }
             let (neg, mag) = int_value(input);
             let r = CharacterData::String(ascii_string(input)).parse_integer::<$t>();
             let fits = if neg { $signed && mag <= (<$t>::MAX as u128) + 1 } else { mag <= <$t>::MAX as u128 };
@@ -141,10 +141,12 @@ bool_len!(bool_len0, 0); bool_len!(bool_len1, 1); bool_len!(bool_len2, 2); bool_
 /// exactly `value as f64` (one correctly rounded IEEE conversion).  Decimal/exponent/INF/NaN texts go to
 /// std's parser and are not covered here.
 pub fn check_float_prefixed(input: &[u8]) {
-    if !all_ascii(input) || input.len() > 20 || !ref_accepts_NUM(input) { return; }
+    if !all_ascii(input) || input.len() > 100 || !ref_accepts_NUM(input) { return; }
     let prefixed = input[0] == b'0' && (input.len() == 1 || matches!(input[1], b'x' | b'X' | b'b' | b'B' | b'0'..=b'7'));
     if !prefixed { return; }
     let mag = if input.len() == 1 { 0 } else { match input[1] { b'x' | b'X' => accumulate(&input[2..], 16), b'b' | b'B' => accumulate(&input[2..], 2), _ => accumulate(&input[1..], 8) } };
+    // values of 2^64 and above are outside this contract (the code returns None for them although f64 could hold them: DESIGN 9, observation)
+    if mag > u64::MAX as u128 { return; }
     let r = CharacterData::String(ascii_string(input)).parse_float();
     match r { Some(g) => assert!(g == (mag as u64) as f64, "parse_float returned a different number for a prefixed text"), None => assert!(false, "parse_float returned nothing for a prefixed text that fits") }
     cover!(input.len() > 2, "a prefixed form");
